@@ -93,6 +93,13 @@ def coq_side(ctx, P):
     bad_ax = [x for x in pr["axioms"] if x not in coqstage.AX_ALLOW]
     if bad_ax:
         out["failed"].append({"what": "assumptions", "detail": "axioms outside the allowlist: %s" % ", ".join(bad_ax)})
+    if ctx.tier == "thorough" and pr["ok"]:
+        import model
+        ck = model.coqchk(pid)
+        out["coqchk"] = ck
+        out["obligations"].append("coqchk -o MV.Properties.%s (independent checker; axioms: %s)" % (pid, ck["axioms"] or "<none>"))
+        if not ck["ok"] or (ck["axioms"] not in ("<none>", "")):
+            out["failed"].append({"what": "coqchk", "detail": (ck["log"] or ck["axioms"])[:800]})
     hits = coqstage.audit()
     out["audit"] = hits
     if hits:
